@@ -305,7 +305,10 @@ pub fn generate(rng: &mut Rng, _prop: Prop) -> Scenario {
                     id += 1;
                 }
                 let (mode, k) = sink_plan(rng, total + 5);
-                s.push(Item::new("op").str("what", "rec").int("type", if ccs { 20 } else { 22 }).int("ver", gen::version(rng) as u64).bytes("ms", &ids).int("via", rng.below(2)).int("sink", mode).int("k", k));
+                // the record header's own length field is not an input of the serializer: any value
+                // there must be ignored in favour of the measured length
+                let hl = if rng.chance(1, 2) { 0 } else { *rng.pick(&[1u64, 5, 16384, 65535]) };
+                s.push(Item::new("op").str("what", "rec").int("type", if ccs { 20 } else { 22 }).int("ver", gen::version(rng) as u64).bytes("ms", &ids).int("via", rng.below(2)).int("sink", mode).int("k", k).int("hdrlen", hl).int("parsed", rng.chance(1, 3) as u64));
             }
             _ => {
                 let n = rng.urange(1, 3);
@@ -518,6 +521,7 @@ fn sink_oracle(ctx: &mut Ctx, what: &str, mode: u64, k: usize, out: &SerOut, acc
                 return false;
             }
             if mode != 0 {
+                ctx.count("oracle/ok_under_sink_fault_checked_complete", 1);
                 // faulty sink (relaxed, narrow): the call may fail, but Ok => the sink holds the complete
                 // fault-free encoding (= what the same serializer writes into an unlimited sink)
                 let clean = CLEAN.with(|c| c.borrow_mut().take());
@@ -626,6 +630,7 @@ fn kind_index(k: &str) -> u32 {
 }
 
 fn fault_free_message_oracles(ctx: &mut Ctx, what: &str, src: &Item, bytes: &[u8], pos: u64, reference: &[u8]) {
+    ctx.count("oracle/message_roundtrips", 1);
     if pos != bytes.len() as u64 {
         ctx.violate(Prop::C09, "ser/position", || format!("{}: gen reports position {} but the sink holds {} bytes", what, pos, bytes.len()));
     }
@@ -677,7 +682,22 @@ fn op_rec(ctx: &mut Ctx, scn: &Scenario, op: &Item, mode: u64, k: usize) {
     }
     let ctype = op.u("type") as u8;
     let ver = op.u("ver") as u16;
-    let rec = TlsPlaintext { hdr: TlsRecordHeader { record_type: TlsRecordType(ctype), version: TlsVersion(ver), len: 0 }, msg: msgs };
+    let mut rec = TlsPlaintext { hdr: TlsRecordHeader { record_type: TlsRecordType(ctype), version: TlsVersion(ver), len: op.u("hdrlen") as u16 }, msg: msgs };
+    // optionally the value obtained by parsing the reference encoding of the same record
+    let wire0: Vec<u8>;
+    if op.u("parsed") == 1 && items.iter().all(|m| supported(&m.kind) && !m.kind.starts_with("client_key_exchange_")) {
+        let mut pl = Vec::new();
+        for m in &items {
+            pl.extend(enc::tls_message(m));
+        }
+        wire0 = enc::tls_record(ctype, ver, pl.len() as u64, &pl);
+        if let Some(Ok((_, p))) = ctx.call("parse_tls_plaintext", wire0.len(), 0, || parse_tls_plaintext(&wire0)) {
+            if p.msg.len() == items.len() {
+                ctx.fault("value-from-parser");
+                rec = p;
+            }
+        }
+    }
     let all_sup = items.iter().all(|m| supported(&m.kind));
     let mut payload = Vec::new();
     for m in &items {
